@@ -11,9 +11,9 @@ use crate::ev::Ctx;
 use crate::tape::Tape;
 use serde_json::{json, Value};
 
-pub const NSYM: usize = 35;
+pub const NSYM: usize = 38;
 pub const SYM_NAMES: [&str; NSYM] =
-    ["ident", "mut ident", "ref ident", "r#ident", "_", "(a,b)", "N(a)", "N(a,_)", "S{a}", "&a", "ident==fn name", "ident==would-be generated argK", "ident==fn name + '_'", "N(fn name)", "N(fn name + '_')", "N(argK)", "(a,b,c)", "N(_)", "N(mut a)", "N(ref a)", "S{mut a}", "N(ref mut a)", "a @ _", "(a,_)", "NN(N(a))", "S{a: x}", "[a,_]", "mut ident==fn name", "N(mut fn name)", "r#<fn name>", "r#<would-be generated argK>", "N(a @ _)", "(a @ N(_), _)", "[_, a @ ..]", "NN(a @ N(_))"];
+    ["ident", "mut ident", "ref ident", "r#ident", "_", "(a,b)", "N(a)", "N(a,_)", "S{a}", "&a", "ident==fn name", "ident==would-be generated argK", "ident==fn name + '_'", "N(fn name)", "N(fn name + '_')", "N(argK)", "(a,b,c)", "N(_)", "N(mut a)", "N(ref a)", "S{mut a}", "N(ref mut a)", "a @ _", "(a,_)", "NN(N(a))", "S{a: x}", "[a,_]", "mut ident==fn name", "N(mut fn name)", "r#<fn name>", "r#<would-be generated argK>", "N(a @ _)", "(a @ N(_), _)", "[_, a @ ..]", "NN(a @ N(_))", "mut <fn name + '_'>", "ref <fn name + '_'>", "<fn name + '_'> @ _"];
 const RAW: [&str; 7] = ["r#type", "r#match", "r#loop", "r#move", "r#box", "r#dyn", "r#in"];
 pub const DEFAULT_fname: &str = "foo";
 
@@ -106,7 +106,20 @@ pub fn param(sym: usize, i: usize, len: usize, fn_name: &str) -> ParamSpec {
         31 => p(format!("N({b} @ _)"), Some(b.clone()), vec![b]),
         32 => p(format!("({b} @ N(_), _)"), Some(b.clone()), vec![b]),
         33 => p(format!("[_, {b} @ ..]"), Some(b.clone()), vec![b]),
-        _ => p(format!("NN({b} @ N(_))"), Some(b.clone()), vec![b]),
+        34 => p(format!("NN({b} @ N(_))"), Some(b.clone()), vec![b]),
+        // the name a parameter called like the fn would be renamed to, taken by a binding with a binding mode
+        35 => {
+            let n = format!("{fname}_");
+            p(format!("mut {n}"), Some(n.clone()), vec![n])
+        }
+        36 => {
+            let n = format!("{fname}_");
+            p(format!("ref {n}"), Some(n.clone()), vec![n])
+        }
+        _ => {
+            let n = format!("{fname}_");
+            p(format!("{n} @ _"), Some(n.clone()), vec![n])
+        }
     }
 }
 
